@@ -86,6 +86,19 @@ func (r *atRun) materialiseForeign(jstart int, acts []foreignAct, g *simkit.Gen)
 					return VS(tw)
 				}
 			}
+			// a near miss for DOUBLE columns: a value that differs from the current
+			// one only beyond single precision
+			if c.DataType == "double" {
+				if f, ok := row[i].(float64); ok && f != 0 && float64(float32(f)) == f {
+					for _, d := range []float64{1e-9, 1e-7, 1e-5} {
+						g2 := f * (1 + d)
+						if g2 != f && float32(g2) == float32(f) {
+							w.Sim.Probe("c09-foreign-write-float32-twin")
+							return VF(g2)
+						}
+					}
+				}
+			}
 			switch {
 			case strings.Contains(c.DataType, "int"):
 				return VI(777001)
